@@ -4,7 +4,7 @@
 #include "hwloc.h"
 #include "hwmc.h"
 #include <limits.h>
-enum { BAT_TRAVERSAL, BAT_PRINT, BAT_HELPERS, BAT_DISTANCES, BAT_MEMATTRS, BAT_CPUKINDS, BAT_SETS, BAT_XML, BAT_SYNTHETIC, BAT_NGROUPS };
+enum { BAT_TRAVERSAL, BAT_PRINT, BAT_HELPERS, BAT_DISTANCES, BAT_MEMATTRS, BAT_CPUKINDS, BAT_SETS, BAT_XML, BAT_SYNTHETIC, BAT_LOOKUPS, BAT_NGROUPS };
 void battery_group(hwloc_topology_t t, int group, struct sb *digest);
 void battery_all(hwloc_topology_t t, struct sb *digest);
 #endif
